@@ -147,6 +147,20 @@ def check_case(case):
         r.nontrivial.add(key)
         r.states += 1
         r.transitions += 2 * len(rot) + 3
+    # small misorientations on top of every symmetry operator (a snap-to-zero tolerance lives here)
+    for j in range(len(rot)):
+        for ax, epsdeg in (((1, 2, 2), 1e-3), ((0, 0, 1), 2e-3), ((1, 1, 1), 1e-2), ((1, 0, 0), 0.1), ((2, -1, 0), 1.0)):
+            a = np.array(ax, float) / math.sqrt(sum(x * x for x in ax))
+            th = math.radians(epsdeg)
+            K = np.array([[0, -a[2], a[1]], [a[2], 0, -a[0]], [-a[1], a[0], 0]])
+            Rs = np.eye(3) + math.sin(th) * K + (1 - math.cos(th)) * (K @ K)
+            U2 = U1 @ rot[j] @ Rs
+            key = "cs%d:U1=%s:small(op%d,%s,%g)" % (k, q1, j, ax, epsdeg)
+            m = np.asarray(symmetry.Umis(U1, U2, k), float)
+            ref = np.array([ang(U1.T @ U2 @ rot[i].T) for i in range(len(rot))])
+            r.check("small-angle", float(np.max(np.abs(m[:, 1] - ref))), 1e-4, key, "Umis resolves a small misorientation on top of a symmetry operator", ref, m[:, 1])
+            r.check("small-angle-min", abs(float(m[:, 1].min()) - epsdeg), 1e-4, key + ":min", "smallest angle = the applied misorientation", epsdeg, float(m[:, 1].min()))
+            r.transitions += 1
     mm = np.asarray(symmetry.Umis(U1, U1, k), float)
     r.require(float(mm[:, 1].min()) < 1e-4, "cs%d:U=%s:self" % (k, q1), "Umis(U,U) contains 0", 0, float(mm[:, 1].min()))
     return r
